@@ -307,6 +307,50 @@ fn run_frame_numbers(rep: &Arc<Report>, thorough: bool) {
     ));
 }
 
+/// Streams to which the user added metadata blocks: the last-block flags must stay consistent.
+fn run_metadata_variants(rep: &Arc<Report>) {
+    use flacenc::component::MetadataBlockData;
+    let mut local = Local::default();
+    for b in 0..6usize {
+        let case = crate::universe::decode(&crate::universe::base_points()[b]);
+        let samples = case.input.samples();
+        for tags in [vec![1u8], vec![2, 126], vec![4, 1, 2]] {
+            for size in [0usize, 1, 255, 65536] {
+                local.evals += 1;
+                let Ok(mut s) = subject::encode(&case, &samples, Mode::St) else { continue };
+                for &t in &tags {
+                    let data: Vec<u8> = (0..size).map(|i| (i * 31 + t as usize) as u8).collect();
+                    if let Ok(m) = MetadataBlockData::new_unknown(t, &data) {
+                        s.add_metadata_block(m);
+                    }
+                }
+                let cj = json!({"stream_with_metadata": {"base": b, "tags": tags, "size": size}, "case": case.json()});
+                let Ok(bytes) = subject::stream_bytes(&s) else { continue };
+                match strictflac::parse(&bytes) {
+                    Err(e) => rep.violation(&format!("malformed|{}", strictflac::clause(&e)), &format!("stream with {} added metadata blocks: {e}", tags.len()), cj, size as u64),
+                    Ok(f) => {
+                        let want: Vec<(u8, usize)> = tags.iter().map(|&t| (t, size)).collect();
+                        if f.extra_meta != want {
+                            rep.violation("malformed|meta.blocks", &format!("added metadata blocks {want:?} are read back as {:?}", f.extra_meta), cj, size as u64);
+                        } else if f.info.is_last {
+                            rep.violation("malformed|meta.last_flag", "STREAMINFO is flagged last although metadata blocks follow", cj, size as u64);
+                        } else if f.samples != samples {
+                            rep.violation("malformed|meta.audio", "audio differs after adding metadata blocks", cj, size as u64);
+                        } else {
+                            for is in f.issues.iter().filter(|s| !s.starts_with("sub.wasted_bits")) {
+                                rep.violation(&format!("malformed|{}", strictflac::clause(is)), &format!("stream with added metadata: {is}"), cj.clone(), size as u64);
+                            }
+                            local.nontrivial.insert(crate::universe::fnv(&cj.to_string()));
+                        }
+                    }
+                }
+            }
+        }
+    }
+    rep.merge(local);
+    rep.add_rule("streams of the six base points with 1-3 added unknown metadata blocks (sizes 0, 1, 255, 65536): block sequence, last-block flags and audio read back by the reference parser");
+}
+
 pub fn run(args: &Args, rep: &Arc<Report>) {
     let thorough = args.tier == "thorough";
     if let Some(p) = &args.replay {
@@ -331,6 +375,7 @@ pub fn run(args: &Args, rep: &Arc<Report>) {
     if args.replay.is_none() {
         run_code_spaces(rep, thorough);
         run_frame_numbers(rep, thorough);
+        run_metadata_variants(rep);
     }
     rep.add_rule("every stream (single-thread and frame-level assembly) must pass the RFC 9639 reference validator with no issue: marker, STREAMINFO first/34 bytes/last flag, sync, reserved bits, fixed-blocksize bit, non-reserved codes agreeing with STREAMINFO and the input, frame numbers 0,1,2.. canonical, CRC-8, CRC-16, zero padding, subframe limits (order < block size, precision code, shift >= 0, method 0, parameters < 15, partition divisibility, first partition, residuals in 32 bits), non-final frames of exactly the requested size, no trailing byte; non-trivial = a stream whose headers carry an explicit block-size or sample-rate field");
 }
